@@ -432,6 +432,8 @@ pub fn run(ctx: &Ctx) -> i32 {
         shapes.push((banana(5), vec![vec![0, 1]]));
     }
     let wq: Vec<f64> = vec![1.0, 2.0 / 3.0];
+    // longest first (dynamic hand-out of work items); stable, so the i-dependent choices below stay deterministic
+    shapes.sort_by_key(|s| std::cmp::Reverse(s.0.len()));
     let mut acc = par_for(shapes.len(), |i, acc| {
         let (shape, exts) = &shapes[i];
         let ne = shape.len();
@@ -466,7 +468,7 @@ pub fn run(ctx: &Ctx) -> i32 {
             for ext in exts {
                 let g0 = mk(shape, &massive, &vec![1.0; ne], ext, 4);
                 let pre = precompute(&g0);
-                for d in tier.pick(if i % 2 == 0 { vec![3usize, 4] } else { vec![3usize] }, vec![1, 2, 3, 4, 5, 6]) {
+                for d in tier.pick(if i % 3 == 0 { vec![3usize, 4] } else if i % 3 == 1 { vec![3usize] } else { vec![4usize] }, vec![1, 2, 3, 4, 5, 6]) {
                     let mut wl = was.clone();
                     wl.push(vec![d as f64; ne]);
                     for w in &wl {
@@ -498,7 +500,7 @@ pub fn run(ctx: &Ctx) -> i32 {
     // (the f64 probabilities do not add up to exactly one), the complete subset lattice of each
     let mut big: Vec<OGraph> = vec![];
     for ne in tier.pick(vec![6usize, 7, 8, 9, 10], vec![6, 7, 8, 9, 10, 11, 12]) {
-        let variants = if ne <= 8 { tier.pick(8, 24) } else { 2 };
+        let variants = if ne <= 8 { tier.pick(6, 24) } else { 2 };
         for v in 0..variants {
             let w: Vec<f64> = (0..ne).map(|e| 0.6 + ((e * 7 + v * 3 + ne) % 11) as f64 / 17.0).collect();
             let poly: Vec<(u8, u8)> = (0..ne).map(|i| (i as u8, ((i + 1) % ne) as u8)).collect();
